@@ -4,6 +4,7 @@
    real methods on every run) and model/Producer.v (batch life cycle; tied by trace
    acceptance of the real producer under the simulator). *)
 From Coq Require Import ZArith List Bool.
+From Verif Require Import DispatchActs ProduceDispatch C02_dispatch.
 From Verif Require Import Imp IncrSeq Producer C01_proof C02_Done C02_proof.
 Import ListNotations.
 Open Scope Z_scope.
@@ -60,6 +61,43 @@ Theorem c02_fault_free_round_partial : forall s b rest,
              uq s' = rest /\ pend s' = None /\ acked s' = acked s ++ b.
 Proof. exact fault_free_round. Qed.
 Print Assumptions c02_fault_free_round_partial.
+
+(* ---- the Produce-response dispatch, regenerated from sender.py (handle_response, _can_retry) and
+   errors.py (retriable / invalid_metadata attributes) on every run and validated against the real
+   handler for every code -1..100 x idempotent x expired ------------------------------------------ *)
+
+(* "With idempotence enabled, retriable faults alone never fail an accepted record": whatever
+   retriable code a Produce reply carries, and however old the batch is, it is re-enqueued *)
+Theorem c02_retriable_never_fails_idempotent : forall c expired, In c kafka_produce_retriable ->
+  has AFail (produceDispatch c true expired) = false /\ has AReenqueue (produceDispatch c true expired) = true.
+Proof. exact retriable_never_fails_idempotent. Qed.
+Print Assumptions c02_retriable_never_fails_idempotent.
+
+Theorem c02_retriable_retried_until_expiry : forall c idem, In c kafka_produce_retriable ->
+  has AReenqueue (produceDispatch c idem false) = true.
+Proof. exact retriable_retried_until_expiry. Qed.
+Print Assumptions c02_retriable_retried_until_expiry.
+
+Theorem c02_leader_errors_refresh_metadata : forall c idem, In c leader_errors ->
+  has AMetadataUpdate (produceDispatch c idem false) = true.
+Proof. exact leader_errors_refresh_metadata. Qed.
+Print Assumptions c02_leader_errors_refresh_metadata.
+
+Theorem c02_duplicate_sequence_is_success : forall idem expired,
+  produceDispatch DUPLICATE_SEQUENCE_NUMBER idem expired = [ADone].
+Proof. exact duplicate_sequence_is_success. Qed.
+Print Assumptions c02_duplicate_sequence_is_success.
+
+(* for every integer error code: a reply resolves, fails or re-enqueues the batch - exactly one of them *)
+Theorem c02_reply_has_exactly_one_outcome : forall c idem expired,
+  n_outcomes (produceDispatch c idem expired) = 1%nat.
+Proof. exact exactly_one_outcome. Qed.
+Print Assumptions c02_reply_has_exactly_one_outcome.
+
+Theorem c02_failure_only_if : forall c idem expired,
+  has AFail (produceDispatch c idem expired) = true -> retriable c = false \/ (idem = false /\ expired = true).
+Proof. exact failure_only_if. Qed.
+Print Assumptions c02_failure_only_if.
 
 Example c02_done_example :
   done 100 (-1) 0 [mkF false 0 1000; mkF true 1 2000; mkF false 2 3000]
